@@ -4,7 +4,9 @@ import GqlProofs.Validate.WalkTerm
   selection set that contains it; the body of a fragment is walked at most once per operation /
   stand-alone fragment walk (guard `validatedFragmentSpreads`).  Amortised over the visited set:
     events(walk of sels from v to v') + W(v') ≤ own(sels) + W(v)
-  where `W v` is the total own-event count of the bodies of the fragments not named in `v`.
+  where `W v` is the total own-event count of the bodies (directives of the definition, which the
+  walker walks on every first visit of the fragment, and its selection set) of the fragments not
+  named in `v`.
 -/
 namespace Gql.Validate
 open Gql
@@ -90,9 +92,14 @@ theorem walkDirectives_len (s : SV) (cur : Option OperationDef) (parent : Option
   simp only [walkDirectives, List.length_append, List.length_cons, List.length_nil, evDirs]
   rw [walkDirectiveItems_len]
 
-/-- total own-event count of the bodies of the fragments whose name is not in `v` -/
+/-- events one jump into a fragment definition fires for the definition itself: the directives of
+    the definition (walked with location FRAGMENT_DEFINITION) and the own events of its selection set -/
+def evFragBody (f : FragmentDef) : Nat := evDirs f.dirs + evSels f.sel
+
+/-- total own-event count of the bodies (definition directives + selection set) of the fragments
+    whose name is not in `v` -/
 def fragWeight (d : QueryDoc) (v : List Name) : Nat :=
-  ((d.frags.filter fun f => !v.contains f.name).map fun f => evSels f.sel).sum
+  ((d.frags.filter fun f => !v.contains f.name).map evFragBody).sum
 
 theorem filter_sum_le {α : Type} (g : α → Nat) (p q : α → Bool) (h : ∀ x, q x = true → p x = true) (x0 : α)
     (hp0 : p x0 = true) (hq0 : q x0 = false) :
@@ -122,9 +129,9 @@ theorem filter_sum_le {α : Type} (g : α → Nat) (p q : α → Bool) (h : ∀ 
         · simp [hq, hp]; exact ih
 
 theorem fragWeight_jump (d : QueryDoc) (v : List Name) (f : FragmentDef) (hf : f ∈ d.frags)
-    (hn : v.contains f.name = false) : fragWeight d (f.name :: v) + evSels f.sel ≤ fragWeight d v := by
+    (hn : v.contains f.name = false) : fragWeight d (f.name :: v) + evFragBody f ≤ fragWeight d v := by
   unfold fragWeight
-  apply filter_sum_le (fun f => evSels f.sel) _ _ _ f _ _ _ hf
+  apply filter_sum_le evFragBody _ _ _ f _ _ _ hf
   · intro x hx
     simp only [Bool.not_eq_true', List.contains_eq_mem, decide_eq_false_iff_not, List.mem_cons, not_or] at *
     exact hx.2
@@ -197,6 +204,7 @@ mutual
             have hb := hJ _ _ _ r3 h3
             simp only [walkDirectives_visited, markSel_visited] at hb
             simp only [List.length_append, List.length_cons, List.length_nil, walkDirectives_len, evSel]
+            simp only [evFragBody] at hw
             omega
   theorem walkSelections_bound (s : SV) (d : QueryDoc) (cur : Option OperationDef) (J : Jump) (hJ : JumpBound d J) :
       ∀ (xs : Selections) (parent : Option Definition) (ws : WS) r, walkSelections s d cur J parent xs ws = some r →
@@ -245,8 +253,9 @@ def evFrag (f : FragmentDef) : Nat := evDirs f.dirs + evSels f.sel + 1
 /-- own events of a document = what one walk over every node once fires (a syntactic size) -/
 def docEvents (d : QueryDoc) : Nat := (d.ops.map evOp).sum + (d.frags.map evFrag).sum
 
-/-- own events of all fragment bodies -/
-def fragEvents (d : QueryDoc) : Nat := (d.frags.map fun f => evSels f.sel).sum
+/-- own events of all fragment bodies (per fragment: the directives of the definition, which every
+    walk that jumps into the fragment walks again, and its selection set) -/
+def fragEvents (d : QueryDoc) : Nat := (d.frags.map evFragBody).sum
 
 theorem fragWeight_nil (d : QueryDoc) : fragWeight d [] = fragEvents d := by
   simp only [fragWeight, fragEvents]
@@ -256,11 +265,11 @@ theorem fragWeight_nil (d : QueryDoc) : fragWeight d [] = fragEvents d := by
   simp
 
 theorem fragEvents_le_docEvents (d : QueryDoc) : fragEvents d ≤ docEvents d := by
-  have : ∀ fs : List FragmentDef, (fs.map fun f => evSels f.sel).sum ≤ (fs.map evFrag).sum := by
+  have : ∀ fs : List FragmentDef, (fs.map evFragBody).sum ≤ (fs.map evFrag).sum := by
     intro fs
     induction fs with
     | nil => exact Nat.le_refl _
-    | cons f rest ih => simp only [List.map_cons, List.sum_cons, evFrag]; omega
+    | cons f rest ih => simp only [List.map_cons, List.sum_cons, evFrag, evFragBody]; omega
   have := this d.frags
   simp only [fragEvents, docEvents]
   omega
